@@ -335,6 +335,7 @@ pub fn body<D: Dd>(c: &DdCase) {
                     }
                     // (ii) progress
                     if sp.depth <= l0 {
+                        note("root_in_cutset");
                         panic!("SYMX-LABEL[C08:ii-deeper] cut-set sub-problem at depth {} is not deeper than the root at depth {}", sp.depth, l0);
                     }
                     if sp.depth > t.sh.n {
